@@ -379,7 +379,9 @@ func (b *backend) HeadGet(w http.ResponseWriter, r *http.Request) error {
 	}
 
 	w.Header().Set("Content-Type", ical.MIMEType)
-	if co.ContentLength > 0 {
+	if co.ContentLength > 0 && r.Method == http.MethodHead {
+		// The body of a GET response is encoded below: its length isn't
+		// necessarily the length the backend has stored
 		w.Header().Set("Content-Length", strconv.FormatInt(co.ContentLength, 10))
 	}
 	if co.ETag != "" {
